@@ -113,7 +113,7 @@ def run(F, S, R, tier):
         else:
             R.bad("affine/finalize/ranges", "finalize's ranges are %s, frozen table %s" % (sorted(pairs), want), [fin.where()])
         K.cmp_table(R, "cmp/finalize/early", fin, [r"param:number"], [r"call:.*ProposalWindow::closest$"], {"<": "EARLY", "=": "EARLY", ">": "WINDOW"},
-                    K.classify_reach([r"HashSet::<.*>::new$"], "EARLY", "WINDOW"), what="while n+1 <= w_close nothing is committable", arith=(["lit:1", "op:add"], []))
+                    K.classify_reach([r"HashSet::<.*>::new$"], "EARLY", "WINDOW", stop_pats=[r"ProposalView::\w+$"]), what="while n+1 <= w_close nothing is committable", arith=(["lit:1", "op:add"], []))
         K.cmp_table(R, "cmp/finalize/split", fin, [r"call:.*ProposalWindow::farthest$"], [r"lit:1$"], {"<": "KEEP", "=": "KEEP", ">": "SPLIT"},
                     K.classify_reach([r"BTreeMap::<.*>::split_off$"], "SPLIT", "KEEP"), what="rows below the window are discarded only when the window start is > 1",
                     arith=(["lit:1", "op:add", "op:saturating_sub"], []))
